@@ -1,6 +1,6 @@
 #!/venv/bin/python
 """Regenerates the tables of DESIGN.md section 6 (between the BEGIN/END markers) from
-  - a mutant log (default out/mutants.jsonl; pass another path as argv[1]) and
+  - a mutant log (default sensitivity/mutants.jsonl, the committed log of the last full run of tools/mutants.py; pass another path as argv[1]) and
   - seeded/*/meta.json."""
 import collections
 import glob
@@ -12,7 +12,7 @@ HERE = os.path.dirname(os.path.dirname(os.path.abspath(__file__)))
 sys.path.insert(0, HERE)
 from tools.mutant_list import MUTANTS  # noqa: E402
 
-log = sys.argv[1] if len(sys.argv) > 1 else os.path.join(HERE, 'out', 'mutants.jsonl')
+log = sys.argv[1] if len(sys.argv) > 1 else os.path.join(HERE, 'sensitivity', 'mutants.jsonl')
 latest = {}
 if os.path.exists(log):
     for ln in open(log):
